@@ -317,3 +317,414 @@ void cshift(Rng& rng)
         }
     }
 }
+
+// =============================================================================================
+// general narrowest types and multi-word storage: `t…` lines.  Values are arbitrary-precision
+// (sign + 32-bit magnitude words) and travel in hex (`-0x1f`); a result is printed as
+// `sn(<digits>,<exponent>,<narrowest>):<hex value>`, read limb by limb from a multi-word storage.
+
+struct Big {
+    bool neg = false;
+    std::vector<std::uint32_t> m;  // magnitude, little endian, no leading zero words
+    void norm()
+    {
+        while (!m.empty() && m.back() == 0) m.pop_back();
+        if (m.empty()) neg = false;
+    }
+    bool zero() const { return m.empty(); }
+    int bitlen() const
+    {
+        if (m.empty()) return 0;
+        int n = int(m.size() - 1) * 32;
+        std::uint32_t t = m.back();
+        while (t) { ++n; t >>= 1; }
+        return n;
+    }
+    bool bit(int i) const { return std::size_t(i / 32) < m.size() && ((m[std::size_t(i / 32)] >> (i % 32)) & 1u); }
+    bool operator==(Big const& o) const { return neg == o.neg && m == o.m; }
+};
+
+inline Big big_pow2(int k)
+{
+    Big b;
+    b.m.assign(std::size_t(k / 32 + 1), 0);
+    b.m[std::size_t(k / 32)] = 1u << (k % 32);
+    return b;
+}
+inline Big big_ones(int d)  // 2^d - 1
+{
+    Big b;
+    for (int i = 0; i < d; i += 32) b.m.push_back(d - i >= 32 ? 0xffffffffu : ((1u << (d - i)) - 1));
+    b.norm();
+    return b;
+}
+inline Big big_addmag(Big b, std::uint32_t s)  // |b| + s, sign kept
+{
+    std::uint64_t c = s;
+    for (std::size_t i = 0; c && i < b.m.size(); ++i) {
+        c += b.m[i];
+        b.m[i] = std::uint32_t(c);
+        c >>= 32;
+    }
+    if (c) b.m.push_back(std::uint32_t(c));
+    return b;
+}
+inline Big big_submag(Big b, std::uint32_t s)  // |b| - s (|b| >= s), sign kept
+{
+    std::uint64_t bor = s;
+    for (std::size_t i = 0; bor && i < b.m.size(); ++i) {
+        std::uint64_t cur = b.m[i];
+        if (cur >= bor) {
+            b.m[i] = std::uint32_t(cur - bor);
+            bor = 0;
+        } else {
+            b.m[i] = std::uint32_t((cur + (1ull << 32)) - bor);
+            bor = 1;
+        }
+    }
+    b.norm();
+    return b;
+}
+inline Big big_shr(Big b, int k)
+{
+    Big r;
+    r.neg = b.neg;
+    int n = b.bitlen();
+    for (int i = k; i < n; i += 32) {
+        std::uint32_t w = 0;
+        for (int j = 0; j < 32 && i + j < n; ++j)
+            if (b.bit(i + j)) w |= 1u << j;
+        r.m.push_back(w);
+    }
+    r.norm();
+    return r;
+}
+inline Big big_small(long long v)
+{
+    Big b;
+    b.neg = v < 0;
+    unsigned long long u = v < 0 ? 0ull - (unsigned long long)v : (unsigned long long)v;
+    b.m = {std::uint32_t(u), std::uint32_t(u >> 32)};
+    b.norm();
+    return b;
+}
+inline Big big_neg(Big b)
+{
+    if (!b.zero()) b.neg = !b.neg;
+    return b;
+}
+inline Big big_rand(Rng& rng, int len)  // up to `len` bits
+{
+    Big b;
+    for (int i = 0; i < len; i += 32) {
+        std::uint32_t w = std::uint32_t(rng.next128());
+        if (len - i < 32) w &= (1u << (len - i)) - 1;
+        b.m.push_back(w);
+    }
+    b.norm();
+    return b;
+}
+inline void big_print(Big const& b)
+{
+    if (b.neg) putchar('-');
+    fputs("0x", stdout);
+    if (b.m.empty()) {
+        putchar('0');
+        return;
+    }
+    printf("%x", b.m.back());
+    for (std::size_t i = b.m.size() - 1; i-- > 0;) printf("%08x", b.m[i]);
+}
+
+template<class BI>
+inline constexpr bool is_builtin_int = std::is_integral_v<BI> || std::is_same_v<BI, I> || std::is_same_v<BI, U>;
+
+// the N-bit two's-complement pattern of `b` as `nl` limbs of `w` bits
+inline std::vector<std::uint64_t> big_limbs(Big const& b, int w, int nl)
+{
+    std::vector<std::uint64_t> l(std::size_t(nl), 0);
+    for (int i = 0; i < nl * w; ++i)
+        if (b.bit(i)) l[std::size_t(i / w)] |= std::uint64_t(1) << (i % w);
+    if (b.neg) {
+        std::uint64_t mask = w == 64 ? ~std::uint64_t(0) : ((std::uint64_t(1) << w) - 1);
+        bool carry = true;
+        for (auto& x : l) {
+            x = (~x) & mask;
+            if (carry) {
+                x = (x + 1) & mask;
+                carry = x == 0;
+            }
+        }
+    }
+    return l;
+}
+
+// storage value from a Big, without going through any library arithmetic
+template<class BI>
+BI bi_of(Big const& b)
+{
+    if constexpr (is_builtin_int<BI>) {
+        U u = 0;
+        for (std::size_t i = b.m.size(); i-- > 0;) u = (u << 32) | b.m[i];
+        if (b.neg) u = U(0) - u;
+        return BI(u);
+    } else {
+        BI r;
+        using limb = std::remove_cvref_t<decltype(r.representation()[0])>;
+        constexpr int w = int(sizeof(limb) * 8);
+        int nl = int(r.crepresentation().size());
+        auto l = big_limbs(b, w, nl);
+        for (int i = 0; i < nl; ++i) r.representation()[std::size_t(i)] = limb(l[std::size_t(i)]);
+        return r;
+    }
+}
+
+template<class BI>
+Big big_of(BI const& v, bool is_signed)
+{
+    Big b;
+    if constexpr (is_builtin_int<BI>) {
+        U u = U(v);
+        if (is_signed && v < 0) {
+            b.neg = true;
+            u = U(0) - u;
+        }
+        for (int i = 0; i < 4; ++i) b.m.push_back(std::uint32_t(u >> (32 * i)));
+    } else {
+        using limb = std::remove_cvref_t<decltype(v.crepresentation()[0])>;
+        constexpr int w = int(sizeof(limb) * 8);
+        int nl = int(v.crepresentation().size());
+        std::vector<std::uint64_t> l;
+        for (int i = 0; i < nl; ++i) l.push_back(std::uint64_t(v.crepresentation()[std::size_t(i)]));
+        std::uint64_t mask = w == 64 ? ~std::uint64_t(0) : ((std::uint64_t(1) << w) - 1);
+        if (is_signed && ((l.back() >> (w - 1)) & 1)) {
+            b.neg = true;
+            bool carry = true;
+            for (auto& x : l) {
+                x = (~x) & mask;
+                if (carry) {
+                    x = (x + 1) & mask;
+                    carry = x == 0;
+                }
+            }
+        }
+        b.m.assign(std::size_t((nl * w + 31) / 32), 0);
+        for (int i = 0; i < nl * w; ++i)
+            if ((l[std::size_t(i / w)] >> (i % w)) & 1) b.m[std::size_t(i / 32)] |= 1u << (i % 32);
+    }
+    b.norm();
+    return b;
+}
+
+// the narrowest type of a static number: innermost wide_tag
+template<class T>
+struct nw_of;
+template<class Rep, class Tag>
+struct nw_of<_impl::wrapper<Rep, Tag>> : nw_of<Rep> {
+};
+template<class Rep, int D, class N>
+struct nw_of<_impl::wrapper<Rep, wide_tag<D, N>>> {
+    using type = N;
+};
+
+template<class Z>
+auto innermost_any(Z const& z)
+{
+    if constexpr (_impl::is_wrapper<Z>)
+        return innermost_any(_impl::to_rep(z));
+    else
+        return z;
+}
+
+template<class Z>
+void print_tn(Z const& z)
+{
+    if constexpr (std::is_same_v<Z, bool>) {
+        putchar(z ? '1' : '0');
+    } else {
+        int e = 0;
+        if constexpr (requires { _impl::tag_of_t<Z>::exponent; }) e = _impl::tag_of_t<Z>::exponent;
+        using N = typename nw_of<Z>::type;
+        printf("sn(%d,%d,%s):", digits_v<Z>, e, tn<N>().c_str());
+        big_print(big_of(innermost_any(z), numbers::signedness_v<N>));
+    }
+}
+
+template<class T>
+T mk_t(Big const& b)
+{
+    if constexpr (requires { _impl::tag_of_t<T>::exponent; }) {
+        using SI = _impl::rep_of_t<T>;
+        return _impl::from_rep<T>(mk_t<SI>(b));
+    } else {
+        using EL = _impl::rep_of_t<T>;
+        using RD = _impl::rep_of_t<EL>;
+        using WD = _impl::rep_of_t<RD>;
+        using BI = _impl::rep_of_t<WD>;
+        return _impl::from_rep<T>(_impl::from_rep<EL>(_impl::from_rep<RD>(_impl::from_rep<WD>(bi_of<BI>(b)))));
+    }
+}
+
+// boundary lattice of `D` digits (non-negative only under an unsigned narrowest type) + seeded random values
+template<int D, bool S>
+std::vector<Big> bigvals(Rng& rng, int nrand)
+{
+    std::vector<Big> v;
+    auto add = [&](Big x) {
+        x.norm();
+        if (x.bitlen() > D) return;
+        if (!S && x.neg) return;
+        for (auto const& y : v)
+            if (y == x) return;
+        v.push_back(x);
+    };
+    auto both = [&](Big x) {
+        add(x);
+        add(big_neg(x));
+    };
+    Big hi = big_ones(D);
+    if (D <= 4) {
+        for (int x = S ? -((1 << D) - 1) : 0; x <= (1 << D) - 1; ++x) add(big_small(x));
+        return v;
+    }
+    for (std::uint32_t d = 0; d <= 2; ++d) {
+        both(big_submag(hi, d));
+        both(big_small(d));
+    }
+    for (int k = 1 + int(rng.below(3)); k < D; k += D / 3 + 1) {
+        Big p = big_pow2(k);
+        both(p);
+        both(big_submag(p, 1));
+        if (k % 2) both(big_addmag(p, 1));
+    }
+    both(big_pow2(D - 1));
+    both(big_addmag(big_pow2(D - 1), 1));
+    both(big_shr(hi, 1));
+    both(big_small(7));
+    for (int i = 0; i < nrand; ++i) {
+        Big t = big_rand(rng, 1 + rng.below(D));
+        if (S && rng.below(2)) t = big_neg(t);
+        add(t);
+    }
+    return v;
+}
+
+#define THEAD(KIND, NAME) \
+    printf("C11 " KIND " %s %s %s " NAME " %d %d %d %d ", tn<N>().c_str(), TagN<R>::name().c_str(), TagN<O>::name().c_str(), D1, E1, D2, E2); \
+    big_print(a); \
+    putchar(' '); \
+    big_print(b); \
+    fputs(" => ", stdout);
+#define TCHAIN(NAME) \
+    printf("C11 tchain %s %s %s " NAME " %d %d %d %d %d %d ", tn<N>().c_str(), TagN<R>::name().c_str(), TagN<O>::name().c_str(), D1, E1, D2, E2, D3, E3); \
+    big_print(a); \
+    putchar(' '); \
+    big_print(b); \
+    fputs(" => ", stdout);
+
+// with a 64-bit narrowest type neither `* /` nor any static_number operation instantiates: bare static_integer
+// operands (exponent 0), `+ -`, unary minus, comparisons and conversions only
+template<int D, int E, class R, class O, class N>
+using tnum_t = std::conditional_t<(sizeof(N) == 8), static_integer<D, R, O, N>, static_number<D, E, R, O, N>>;
+
+// MD: multiplication and division instantiate
+template<class R, class O, class N, int D1, int E1, int D2, int E2, int D3, int E3, bool MD = (sizeof(N) < 8)>
+void gn(Rng& rng)
+{
+    static_assert(sizeof(N) < 8 || (E1 == 0 && E2 == 0 && E3 == 0));
+    using A = tnum_t<D1, E1, R, O, N>;
+    using B = tnum_t<D2, E2, R, O, N>;
+    using C = tnum_t<D3, E3, R, O, N>;
+    constexpr bool S = numbers::signedness_v<N>;
+    auto av = bigvals<D1, S>(rng, 3 * scale_from_env());
+    auto bv = bigvals<D2, S>(rng, 3 * scale_from_env());
+    for (auto const& a : av)
+        for (auto const& b : bv) {
+            A x = mk_t<A>(a);
+            B y = mk_t<B>(b);
+            { THEAD("tbin", "add") VH_RUN(x + y, print_tn) }
+            { THEAD("tbin", "sub") VH_RUN(x - y, print_tn) }
+            if constexpr (MD) {
+                { THEAD("tbin", "mul") VH_RUN(x * y, print_tn) }
+                // a multi-word quotient by zero is not a trap: outside the table
+                if (!b.zero()) { THEAD("tbin", "div") VH_RUN(x / y, print_tn) }
+            }
+            { THEAD("tcmp", "lt") VH_RUN(x < y, print_tn) }
+            { THEAD("tcmp", "le") VH_RUN(x <= y, print_tn) }
+            { THEAD("tcmp", "gt") VH_RUN(x > y, print_tn) }
+            { THEAD("tcmp", "ge") VH_RUN(x >= y, print_tn) }
+            { THEAD("tcmp", "eq") VH_RUN(x == y, print_tn) }
+            { THEAD("tcmp", "ne") VH_RUN(x != y, print_tn) }
+            if constexpr (MD) {
+                { TCHAIN("mul_add") VH_RUN(([&] { C c = x; return x * y + c; }()), print_tn) }
+                if (!b.zero()) {
+                    { TCHAIN("sub_div_cvt") VH_RUN(([&] { C c = (x - y) / y; return c; }()), print_tn) }
+                    { TCHAIN("mul_div") VH_RUN(((x * y) / y), print_tn) }
+                }
+                { TCHAIN("mul_sub") VH_RUN((x * y - x), print_tn) }
+                { TCHAIN("mul_gt") VH_RUN((x * y > x), print_tn) }
+                { TCHAIN("mul_cvt") VH_RUN(([&] { C c = x * y; return c; }()), print_tn) }
+            } else {
+                { TCHAIN("add_sub_cvt") VH_RUN(([&] { C c = (x + y) - y; return c; }()), print_tn) }
+            }
+            { TCHAIN("sub_cvt") VH_RUN(([&] { C c = x - y; return c; }()), print_tn) }
+        }
+    for (auto const& a : av) {
+        A x = mk_t<A>(a);
+        printf("C11 tneg %s %s %s %d %d ", tn<N>().c_str(), TagN<R>::name().c_str(), TagN<O>::name().c_str(), D1, E1);
+        big_print(a);
+        fputs(" => ", stdout);
+        VH_RUN(-x, print_tn)
+        printf("C11 tcvt %s %s %s %d %d %d %d ", tn<N>().c_str(), TagN<R>::name().c_str(), TagN<O>::name().c_str(), D1, E1, D3, E3);
+        big_print(a);
+        fputs(" => ", stdout);
+        VH_RUN(([&] { C c = x; return c; }()), print_tn)
+    }
+}
+
+// static (x) built-in, the built-in operand on either side: `C11 mixb <N> <mode> <tag> <op> <D> <E> <L|R> <T> <a> <b>`
+// (`L`: the built-in operand `b` is on the left), `C11 mixc <N> <op> <D> <E> <L|R> <T> <a> <b>`
+template<class N, class R, class O, int D, int E, class T>
+void mhead(char const* kind, char const* op, char side, Big const& a, T b)
+{
+    if (kind[3] == 'b')
+        printf("C11 %s %s %s %s %s %d %d %c %s ", kind, tn<N>().c_str(), TagN<R>::name().c_str(), TagN<O>::name().c_str(), op, D, E, side, tn<T>().c_str());
+    else
+        printf("C11 %s %s %s %d %d %c %s ", kind, tn<N>().c_str(), op, D, E, side, tn<T>().c_str());
+    big_print(a);
+    putchar(' ');
+    prv(b);
+    fputs(" => ", stdout);
+}
+
+template<class R, class O, class N, int D, int E, class T>
+void mixed(Rng& rng)
+{
+    using A = std::conditional_t<E == 0, static_integer<D, R, O, N>, static_number<D, E, R, O, N>>;
+    constexpr bool S = numbers::signedness_v<N>;
+    auto av = bigvals<D, S>(rng, 3 * scale_from_env());
+    auto bv = vals<T>(rng, 4 * scale_from_env(), std::numeric_limits<T>::digits / 3 + 1);
+    for (auto const& a : av)
+        for (T b : bv) {
+            A x = mk_t<A>(a);
+#define MB(OPN, OP) \
+    { mhead<N, R, O, D, E>("mixb", OPN, 'R', a, b); VH_RUN(x OP b, print_tn) } \
+    { mhead<N, R, O, D, E>("mixb", OPN, 'L', a, b); VH_RUN(b OP x, print_tn) }
+#define MC(OPN, OP) \
+    { mhead<N, R, O, D, E>("mixc", OPN, 'R', a, b); VH_RUN(x OP b, print_tn) } \
+    { mhead<N, R, O, D, E>("mixc", OPN, 'L', a, b); VH_RUN(b OP x, print_tn) }
+            MB("add", +)
+            MB("sub", -)
+            MB("mul", *)
+            if (b != 0) { mhead<N, R, O, D, E>("mixb", "div", 'R', a, b); VH_RUN(x / b, print_tn) }
+            if (!a.zero()) { mhead<N, R, O, D, E>("mixb", "div", 'L', a, b); VH_RUN(b / x, print_tn) }
+            MC("lt", <)
+            MC("le", <=)
+            MC("gt", >)
+            MC("ge", >=)
+            MC("eq", ==)
+            MC("ne", !=)
+#undef MB
+#undef MC
+        }
+}
